@@ -844,6 +844,10 @@ class C02(Property):
             case = {'cls': cls, 'max': mx, 'om': om, 'km': 's', 'nk': nk, 'init': init, 'ops': ops}
             if init is not None:
                 case['ik'] = rng.choice(('list', 'dict', 'iter', 'map'))
+            if om is not None and rng.random() < 0.6:
+                # a re-entrant loader at big capacities: self-priming / prefetching / dropping a neighbour / soft lookups
+                kinds = dict(self.prog_kinds(nk))
+                case['prog'] = kinds[rng.choice(('self', 'next', 'pop_next', 'soft_next', 'guarded'))]
             yield self.probe(self.normalize(case), limit=8)
 
     # ------------------------------------------------------------------ predicates of the (now fixed) findings
